@@ -3,6 +3,7 @@ import SC.Proofs.KernBlocks
 import SC.Model.AsmShape
 import SC.Gen.AsmFacts
 import SC.Proofs.AsmSmall
+import SC.Proofs.AsmLoop
 /-!
 # C13 — SIMD byte kernels equal their scalar definition at every length and alignment
 
@@ -157,6 +158,31 @@ theorem instruction_level_small_safe (mem : Mem) (base len : Nat) (c : UInt8) (j
   · rw [(Asm.small_indexbytebody_correct mem base len c junk jx jz jc h16 hb).2]; exact small_loads_safe _ mem base len h16 h0
   · rw [(Asm.small_indexbytebodyCase_correct mem base len c junk jx jz jc h16 hb).2]; exact small_loads_safe _ mem base len h16 h0
   · rw [(Asm.small_indexByteBodyNonASCII_correct mem base len c junk jx jz jc h16 hb).2]; exact small_loads_safe _ mem base len h16 h0
+
+/-- **the SSE search loops, instruction by instruction.**  `Gen.Asm.sse_*` are the labels `sse … ssesuccess` of the three
+    search bodies as they stand in the working tree (execution falls through between labels).  From any machine state
+    with `SI` = `DI` = data, `BX` = length ≥ 16 and the lanes the prologue sets, running them stores the scalar definition's
+    answer through `R8`, and every 16-byte load lies inside the argument — for every memory, base, length and needle byte.
+    The proof is a loop invariant over machine states (`Proofs/AsmLoop.lean`), by induction on the blocks still to examine. -/
+theorem instruction_level_sse_search (mem : Mem) (base len : Nat) (c : UInt8) (s : Asm.St) (f : Nat)
+    (h16 : 16 ≤ len) (hb : base + len + 32 < 2 ^ 63)
+    (hSI : s.r .SI = base) (hDI : s.r .DI = base) (hBX : s.r .BX = len) (hX0 : ∀ j, s.x .X0 j = c) (hX2 : ∀ j, s.x .X2 j = 0x20)
+    (hmem : s.mem = mem) (hout : s.out = none) (hl : s.loads = []) (hf : 9 * (len + 1) + 16 ≤ f) :
+    ((Asm.run Gen.Asm.sse_indexbytebody f (Asm.block Gen.Asm.sse_indexbytebody "sse") s).out =
+        some (specIndex (fun b => b == c) mem base len) ∧
+      ∀ ld ∈ (Asm.run Gen.Asm.sse_indexbytebody f (Asm.block Gen.Asm.sse_indexbytebody "sse") s).loads,
+        base ≤ ld.1 ∧ ld.1 + ld.2 ≤ base + len) ∧
+    ((Asm.run Gen.Asm.sse_indexbytebodyCase f (Asm.block Gen.Asm.sse_indexbytebodyCase "sse") s).out =
+        some (specIndex (fun b => (b ||| 0x20) == c) mem base len) ∧
+      ∀ ld ∈ (Asm.run Gen.Asm.sse_indexbytebodyCase f (Asm.block Gen.Asm.sse_indexbytebodyCase "sse") s).loads,
+        base ≤ ld.1 ∧ ld.1 + ld.2 ≤ base + len) ∧
+    ((Asm.run Gen.Asm.sse_indexByteBodyNonASCII f (Asm.block Gen.Asm.sse_indexByteBodyNonASCII "sse") s).out =
+        some (specIndex (fun b => decide (b ≥ 0x80)) mem base len) ∧
+      ∀ ld ∈ (Asm.run Gen.Asm.sse_indexByteBodyNonASCII f (Asm.block Gen.Asm.sse_indexByteBodyNonASCII "sse") s).loads,
+        base ≤ ld.1 ∧ ld.1 + ld.2 ≤ base + len) :=
+  ⟨Asm.sse_indexbytebody_correct mem base len c s f h16 hb hSI hDI hBX hX0 hX2 hmem hout hl (by omega),
+   Asm.sse_indexbytebodyCase_correct mem base len c s f h16 hb hSI hDI hBX hX0 hX2 hmem hout hl (by omega),
+   Asm.sse_indexByteBodyNonASCII_correct mem base len c s f h16 hb hSI hDI hBX (fun _ => trivial) hX2 hmem hout hl (by omega)⟩
 
 /-- the `len < 16` counting paths of `countbody` and `countbodyCase`, instruction by instruction: the count stored through
     `R8` is the scalar count, and the single load cannot fault -/
